@@ -31,7 +31,7 @@ def red(op="D", e=None):
 
 def instance(name, programs, acts, cap=1, pol="block", reducers=("r1",), red_script=None,
              mws=(), mw_script=None, mw_verdicts=(), mw_remove=None, subs=None, max_tasks=0,
-             cb_reads=True, defects=(), kinds=(0, 1)):
+             cb_reads=True, defects=(), kinds=(0, 1), fine_reg=False):
     """programs: list of {client: [ops]} alternatives; acts: {id: kind};
     red_script: {rid: {kind: red(...)}} (default: every reducer answers Dispatch, no effect)."""
     subs = subs or {}
@@ -53,7 +53,8 @@ def instance(name, programs, acts, cap=1, pol="block", reducers=("r1",), red_scr
     mr = {m: {k: mw_remove.get(m, {}).get(k, "none") for k in kinds} for m in sorted(mids)}
     return dict(name=name, programs=programs, acts=acts, cap=cap, pol=pol, reducers=list(reducers),
                 red_script=rs, mws=list(mws), mw_script=ms, mw_verdicts=list(mw_verdicts), mw_remove=mr,
-                subs=subs, max_tasks=max_tasks, cb_reads=cb_reads, defects=list(defects), kinds=list(kinds))
+                subs=subs, max_tasks=max_tasks, cb_reads=cb_reads, defects=list(defects), kinds=list(kinds),
+                fine_reg=fine_reg)
 
 
 # ----------------------------------------------------------------------------- TLA side
@@ -104,6 +105,7 @@ def mc_cfg(inst, body):
          " MwScript <- MCMwScript", " MwVerdicts <- MCMwVerdicts", " MwRemove <- MCMwRemove",
          " Subs <- MCSubs", " SubKind <- MCSubKind", " SubCap <- MCSubCap", " SubPol <- MCSubPol",
          " MaxTasks = %d" % inst["max_tasks"], " CbReads = %s" % ("TRUE" if inst["cb_reads"] else "FALSE"),
+         " FineReg = %s" % ("TRUE" if inst.get("fine_reg") else "FALSE"),
          " Defects <- MCDefects"]
     return "\n".join(c) + "\n" + body + "\n"
 
@@ -120,4 +122,5 @@ def harness_config(inst):
         "subs": inst["subs"],
         "kind": {str(a): k for a, k in inst["acts"].items()},
         "cb_reads": inst["cb_reads"],
+        "fine_reg": bool(inst.get("fine_reg")),
     }
